@@ -133,6 +133,27 @@ pub fn c12_clone_drop_body<S: Src>(s: &mut S) {
     cover!("cover:depth-1", want == Some(Tr::tok(1)));
 }
 
+/// @harness props=C12:Q,C13:Q,C20:T n=1 err=Cheap timeout=900
+/// @shape build E (declare/define) ; q = E.clone(); drop(E); parse with q        (input of at most ONE token: the smallest query in which a clone outlives the original)
+/// @symbolic t0..t2: u8
+/// @aims a clone of a recursive parser owns the definition: it keeps working after the original handle is gone
+pub fn c12_clone_small_body<S: Src>(s: &mut S) {
+    let t = [s.u8(), s.u8(), s.u8()];
+    let inp = Inp::<1>::any(s);
+    let x = inp.get();
+    let p = nest_dd(t);
+    let q = p.clone();
+    drop(p);
+    let r = q.parse(x);
+    contract(&r);
+    let want = if x.len() == 1 && x[0] == t[2] { Some(Tr::tok(0)) } else { None };
+    check!("C12:clone-survives-drop-of-original", same(&r.output().copied(), &want));
+    cover!("cover:accept", want.is_some());
+    cover!("cover:reject", want.is_none());
+    drop(r);
+    core::mem::forget(q);
+}
+
 /// @harness props=C12:Q,C20:T n=3 err=Cheap timeout=900
 /// @shape declare/define pair:  a = t0 | t1 b t2 ;  b = a t3?      (mutually recursive; only `a` is kept, `b` goes out of scope)
 /// @symbolic t0..t3: u8
@@ -190,5 +211,6 @@ crate::harnesses! {
 crate::harnesses_stub_caller! {
     c12_nesting [5] = c12_nesting_body;
     c12_clone_drop [5] = c12_clone_drop_body;
+    c12_clone_small [4] = c12_clone_small_body;
     c12_mutual [9] = c12_mutual_body;
 }
